@@ -65,7 +65,7 @@ int main(void)
 {
 	br_ssl_engine_context c1, c2, s;
 #ifdef NATIVE_REPLAY
-	memset(&c1, 0, sizeof c1); memset(&c2, 0, sizeof c2); memset(&s, 0, sizeof s);
+	NATIVE_FILL(&c1, sizeof c1); NATIVE_FILL(&c2, sizeof c2); NATIVE_FILL(&s, sizeof s);
 #endif
 	s.iomode = ND_U8(); s.err = 0; s.incrypt = ND_U8() & 1;
 	s.ixa = ND_SIZE(); s.ixb = s.ixa; s.ixc = ND_SIZE();
